@@ -48,12 +48,15 @@ Lemma export_paths_inv : forall o jobs p ds,
   path_function o jobs p = ROk ds
   /\ existsb leaves_target (List.map norm_dst ds) = false
   /\ has_dup (List.map norm_dst ds) = false
-  /\ check_dirs (List.map norm_dst ds) = true.
+  /\ check_dirs (List.map norm_dst ds) = true
+  /\ (Nat.leb 2 (List.length (List.map norm_dst ds))
+      && existsb (fun n => is_empty n || str_eqb n dot) (List.map norm_dst ds)) = false.
 Proof.
   intros o jobs p ds H. unfold export_paths in H.
-  destruct (path_function o jobs p) as [ds'| |]; simpl in H; try discriminate.
+  destruct (path_function o jobs p) as [ds'| |]; cbn [rbind] in H; try discriminate.
   destruct (existsb leaves_target (List.map norm_dst ds')) eqn:E1; [discriminate|].
   destruct (has_dup (List.map norm_dst ds')) eqn:E2; [discriminate|].
+  match type of H with (if ?c then _ else _) = _ => destruct c eqn:E4 end; [discriminate|].
   destruct (check_dirs (List.map norm_dst ds')) eqn:E3; [|discriminate]. inversion H; subst. auto.
 Qed.
 
@@ -84,13 +87,13 @@ Proof.
   apply (in_str_prefixes (split 47 a) rest []); auto. apply split_nonempty.
 Qed.
 
-Theorem accepted_paths_consistent : forall o jobs p ds,
+Lemma accepted_paths_consistent_nonroot : forall o jobs p ds,
   export_paths o jobs p = ROk ds ->
   (forall d, In d ds -> is_root d = false) ->
   locs_unique ds = true /\ locs_prefix_free ds = true.
 Proof.
   intros o jobs p ds H Hroot.
-  destruct (export_paths_inv _ _ _ _ H) as [_ [_ [Hdup Hchk]]].
+  destruct (export_paths_inv _ _ _ _ H) as [_ [_ [Hdup [Hchk _]]]].
   unfold locs_unique, locs_prefix_free. rewrite !pairwise_map.
   assert (Hcore : forall a b, In a ds -> In b ds -> norm_dst a <> norm_dst b ->
             is_prefix (loc_of a) (loc_of b) = false).
@@ -112,6 +115,33 @@ Qed.
 Lemma single_path_consistent : forall d, locs_unique [d] = true /\ locs_prefix_free [d] = true.
 Proof. intro d. split; reflexivity. Qed.
 
+Lemma normpath_nonempty : forall s, is_empty (normpath s) = false.
+Proof.
+  intro s. unfold normpath. destruct s as [|c s]; [reflexivity|].
+  match goal with |- is_empty (match ?p with [] => _ | _ :: _ => _ end) = false => destruct p; reflexivity end.
+Qed.
+
+(* a path is the export root exactly if its normalised form is '' or '.' (the test of 3224fe9) *)
+Lemma is_root_norm : forall d, is_root d = (is_empty (norm_dst d) || str_eqb (norm_dst d) dot).
+Proof.
+  intro d. unfold is_root, loc_of, norm_dst. destruct d as [|c d]; [reflexivity|]. cbn [is_empty].
+  rewrite normpath_nonempty. cbn [orb].
+  destruct (str_eqb (normpath (c :: d)) dot) eqn:E; [reflexivity|].
+  pose proof (split_nonempty 47 (normpath (c :: d))) as Hn. destruct (split 47 (normpath (c :: d))); [congruence|reflexivity].
+Qed.
+
+(* FULL: whatever export accepts is unique and leaf/node consistent *)
+Theorem accepted_paths_consistent : forall o jobs p ds,
+  export_paths o jobs p = ROk ds -> locs_unique ds = true /\ locs_prefix_free ds = true.
+Proof.
+  intros o jobs p ds H.
+  destruct (export_paths_inv _ _ _ _ H) as [_ [_ [_ [_ Hroot]]]].
+  destruct ds as [|d [|d' t]]; [split; reflexivity|apply single_path_consistent|].
+  apply (accepted_paths_consistent_nonroot _ _ _ _ H). intros x Hx.
+  rewrite map_length in Hroot. cbn [List.length Nat.leb andb] in Hroot.
+  rewrite is_root_norm. apply (existsb_false _ _ _ Hroot (norm_dst x)). apply in_map. exact Hx.
+Qed.
+
 (* ================================================================== agreement with the model gives
    the source / uniqueness / leaf-node clauses of the oracle *)
 Lemma export_model_ok : forall o jobs k p,
@@ -127,10 +157,10 @@ Lemma list_eqb_str_eq : forall a b, list_eqb str_eqb a b = true -> a = b.
 Proof. intros a b H. apply (list_eqb_eq _ str_eqb str_eqb_eq). exact H. Qed.
 
 Lemma model_holds_paths : forall c,
-  mismatch_C16 c = false -> cls_root c = false ->
+  mismatch_C16 c = false ->
   h_src c = true /\ h_unique c = true /\ h_leafnode c = true.
 Proof.
-  intros c Hm Hr. unfold mismatch_C16 in Hm. apply orb_false_iff in Hm. destruct Hm as [Hm _].
+  intros c Hm. unfold mismatch_C16 in Hm. apply orb_false_iff in Hm. destruct Hm as [Hm _].
   unfold mismatch_export in Hm.
   repeat (apply orb_false_iff in Hm; destruct Hm as [Hm ?]).
   rename H into Hart, H0 into Hmap, H1 into Hexn, H2 into Hout, H3 into Hsrc.
@@ -142,11 +172,7 @@ Proof.
   unfold opt_exn_eqb in Hexn. destruct (eo_exn (run_export c)) eqn:Ee; [discriminate|].
   destruct (export_model_ok _ _ _ _ Ee Hm) as [ds [Hds Hmapd]].
   fold (run_export c) in Hmapd. rewrite Hmapd in Hmap. subst ds.
-  unfold cls_root, model_paths in Hr. rewrite Hds in Hr.
-  apply andb_false_iff in Hr. destruct Hr as [Hr|Hr].
-  - (* at most one job *)
-    destruct (x_map c) as [|d [|d' t]]; [split; reflexivity|apply single_path_consistent|discriminate].
-  - apply (accepted_paths_consistent _ _ _ _ Hds). intros d Hd. eapply existsb_false; eauto.
+  apply (accepted_paths_consistent _ _ _ _ Hds).
 Qed.
 
 (* ================================================================== refutations: concrete witnesses *)
@@ -164,7 +190,8 @@ Definition j_up := mkjob "36a2387d55e1779c0d212256c1d657cd" (sp_a (JStr (q "../.
 
 Definition orc (js : list job) : oracle :=
   {| o_asc := true; o_frepr := []; o_text := [];
-     o_parse := List.map (fun j => (match fs_get [FN_SP] (j_files j) with Some (Some c) => c | _ => [] end, j_sp j)) js |}.
+     o_parse := List.map (fun j => (match fs_get [FN_SP] (j_files j) with Some (Some c) => c | _ => [] end, j_sp j)) js;
+     o_rel := false |}.
 
 (* the ids used above are the real ones: the model recomputes them *)
 Lemma witness_ids :
@@ -231,33 +258,47 @@ Lemma f19_repaired :
   eo_exn e = Some ERuntimeError /\ art_empty (eo_art e) = true.
 Proof. vm_compute. repeat split. Qed.
 
-(* ---- what is still refuted: F20' *)
-(* (root) a path that normalises to the export root is accepted next to another job: the leaf/node
-   conflict is not seen, the other job ends up inside the first one and is lost on import *)
+(* ---- F20' repaired (3224fe9, 54a5f4b) *)
+(* the target itself next to another job is refused before anything is written ('.' and '' alike);
+   a single job may still be exported to the target itself *)
 Definition root_jobs := [j_a1; j_a2].
 Definition root_spec := PCall [(j_id j_a1, ROk (q ".")); (j_id j_a2, ROk (q "r1"))].
-Lemma root_witness :
+Lemma root_repaired :
   let o := orc root_jobs in
-  export_paths o root_jobs root_spec = ROk [q "."; q "r1"]
-  /\ locs_prefix_free [q "."; q "r1"] = false
-  /\ (let e := export_model o root_jobs KDir root_spec in
-      eo_exn e = None
-      /\ let i := import_model o SchNone (eo_art e) (dst_init []) in
-         io_exn i = None /\ fs_eqb (io_dst i) (expected_dst [] root_jobs) = false)
-  /\ (* '' and '.' are different strings for the duplicate test, but the same place *)
-     export_paths o root_jobs (PCall [(j_id j_a1, ROk (q ".")); (j_id j_a2, ROk [])]) = ROk [q "."; []]
-  /\ locs_unique [q "."; []] = false.
-Proof. vm_compute. repeat split. Qed.
+  export_paths o root_jobs root_spec = RExn ERuntimeError
+  /\ export_paths o root_jobs (PCall [(j_id j_a1, ROk (q "r1")); (j_id j_a2, ROk [])]) = RExn ERuntimeError
+  /\ (forall k, In k [KDir; KZip; KTar] ->
+        let e := export_model o root_jobs k root_spec in eo_exn e = Some ERuntimeError /\ art_empty (eo_art e) = true)
+  /\ (forall k, In k [KDir; KZip; KTar] ->
+        let o1 := orc [j_a1] in
+        let e := export_model o1 [j_a1] k (PCall [(j_id j_a1, ROk (q "a/../"))]) in
+        eo_exn e = None /\ eo_map e = [q "a/../"]
+        /\ let i := import_model o1 SchNone (eo_art e) (dst_init []) in
+           io_exn i = None /\ fs_eqb (io_dst i) (expected_dst [] [j_a1]) = true).
+Proof.
+  split; [vm_compute; reflexivity|]. split; [vm_compute; reflexivity|]. split.
+  - intros k Hk. destruct Hk as [<-|[<-|[<-|[]]]]; vm_compute; split; reflexivity.
+  - intros k Hk. destruct Hk as [<-|[<-|[<-|[]]]]; vm_compute; repeat split.
+Qed.
 
-(* (lex) the copy uses the raw string: os.makedirs on 'a/x/../y' creates 'a/x', where another job
-   is then refused with FileExistsError after the first job has been copied *)
+(* the copy goes to the normalised path: 'a/x/../y' next to 'a/x' is an exact round trip for every
+   target kind, and the mapping still shows the paths as written *)
 Definition lex_spec := PCall [(j_id j_a1, ROk (q "a/x/../y")); (j_id j_a2, ROk (q "a/x"))].
-Lemma lex_witness :
+Lemma lex_repaired :
+  forall k, In k [KDir; KZip; KTar] ->
   let o := orc root_jobs in
-  export_paths o root_jobs lex_spec = ROk [q "a/x/../y"; q "a/x"]
-  /\ locs_unique [q "a/x/../y"; q "a/x"] = true /\ locs_prefix_free [q "a/x/../y"; q "a/x"] = true
-  /\ (let e := export_model o root_jobs KDir lex_spec in
-      eo_exn e = Some EOSError /\ art_empty (eo_art e) = false).
+  let e := export_model o root_jobs k lex_spec in
+  eo_exn e = None /\ eo_map e = [q "a/x/../y"; q "a/x"]
+  /\ let i := import_model o SchNone (eo_art e) (dst_init []) in
+     io_exn i = None /\ fs_eqb (io_dst i) (expected_dst [] root_jobs) = true.
+Proof. intros k Hk. destruct Hk as [<-|[<-|[<-|[]]]]; vm_compute; repeat split. Qed.
+
+(* a relative one-component directory target and a job whose path is the target itself:
+   _mkdir_p('') raises before anything is created (original behaviour; allowed by C16) *)
+Lemma rel_target_example :
+  let o := {| o_asc := true; o_frepr := []; o_text := []; o_parse := o_parse (orc [j_a1]); o_rel := true |} in
+  (let e := export_model o [j_a1] KDir PNone in eo_exn e = Some EOSError /\ art_empty (eo_art e) = true)
+  /\ (let e := export_model o root_jobs KDir PNone in eo_exn e = None /\ eo_map e = [q "a/1"; q "a/2"]).
 Proof. vm_compute. repeat split. Qed.
 
 (* ================================================================== non-vacuity of the hypotheses *)
@@ -397,7 +438,7 @@ Definition j_e1 := mkjob "42b7b4f2921788ea14dac5566e6f06d0" (sp_a (JInt 1)) "{""
 Definition j_e2 := mkjob "9f8a8e5ba8c70c774d410a9107e2a32b" (sp_a (JInt 2)) "{""a"": 2}" [([q "emptydir"], None)].
 Definition f21_jobs := [j_e1; j_e2].
 Definition orc_desc (js : list job) : oracle :=
-  {| o_asc := false; o_frepr := []; o_text := []; o_parse := o_parse (orc js) |}.
+  {| o_asc := false; o_frepr := []; o_text := []; o_parse := o_parse (orc js); o_rel := false |}.
 
 Lemma f21_repaired :
   (forall k, In k [KZip; KTar; KDir] ->
